@@ -131,7 +131,16 @@ def h_constraint_currents(cx, angles, voltages, rows, T, names, request, flag, u
     sim, net, ids, coeffs, R = build(cx, angles, voltages, rows, T, names)
     req = None if request is None else [names[k] for k in request]
     out = AN.constraint_currents(sim, return_magnitudes=flag, constraint_ids=req)
-    if update is not None:
+    if isinstance(update, tuple) and update[0] == "remove":
+        # history: the query above, then a constraint is removed (rows after it move up), then the same simulator is analysed again
+        r = update[1]
+        net.remove_constraint(names[r])
+        coeffs = [c for i, c in enumerate(coeffs) if i != r]
+        names = [n_ for i, n_ in enumerate(names) if i != r]
+        req = None if req is None else [n_ for n_ in req if n_ in names]
+        cx.tag("cc:after_update")
+        out = AN.constraint_currents(sim, return_magnitudes=flag, constraint_ids=req)
+    elif update is not None:
         # history: the query above, then one constraint is updated through the public update_constraint() (which re-appends
         # it, so every later row moves up), then the SAME simulator is analysed again - judged on the second answer
         A = acn()
@@ -340,6 +349,10 @@ def jobs(tier):
             js.append(Job("constraint_currents[req=%s,flag=%s]" % (request, flag), h_constraint_currents,
                           dict(angles=THREE["angles"], voltages=THREE["voltages"], rows=ROWS3, T=T, names=NAMES3, request=request, flag=flag), functions=FUNCS,
                           bounds=dict(stations=3, constraints=3, periods=T, coefficients="symbolic in [-2,2], one absent station per row", requested=request, return_magnitudes=flag)))
+    for request, r in [((1, 2), 0), ((2,), 1)]:
+        js.append(Job("constraint_currents[req=%s,flag=False,remove=%d]" % (request, r), h_constraint_currents,
+                      dict(angles=THREE["angles"], voltages=THREE["voltages"], rows=ROWS3, T=2, names=NAMES3, request=request, flag=False, update=("remove", r)), functions=FUNCS + ["acnportal.acnsim.network.charging_network.ChargingNetwork.remove_constraint"],
+                      bounds=dict(stations=3, constraints=3, periods=2, requested=request, history="query, remove_constraint(#%d), query again" % r)))
     for request, upd in [((1,), 0), ((0, 2), 1), ((2, 1), 1), (None, 0)] + ([((0, 1, 2), 1), ((2,), 0), ((1,), 2), ((1, 2, 0), 0), ((2, 0), 0)] if deep else []):
         js.append(Job("constraint_currents[req=%s,flag=False,update=%d]" % (request, upd), h_constraint_currents,
                       dict(angles=THREE["angles"], voltages=THREE["voltages"], rows=ROWS3, T=2, names=NAMES3, request=request, flag=False, update=upd), functions=FUNCS + ["acnportal.acnsim.network.charging_network.ChargingNetwork.update_constraint"],
